@@ -54,7 +54,7 @@
    number of arguments is the arity error.  The premise that the functions'
    code lies where the table Bf says ([bcode]) is discharged by computation
    through sound checkers (StmtCheck.v) for the built-ins on the machine
-   after builtin.Load, and PROVED for user functions from their definitions
+   after builtin.Load and a first statement, and PROVED for user functions from their definitions
    (StmtDef.v): running f = (ps) -> body at top level (JMP over the body,
    FUNC, the assignment) leaves a machine that meets it under the table with
    one more entry ([C01_definition_extends_the_table]), so sessions of
@@ -75,7 +75,7 @@ Require Import Lia.
 Require Import Calc.Base Calc.Bytecode Calc.Value Calc.FloatText Calc.Ast Calc.Resolve Calc.Compile
         Calc.VM Calc.Sem Calc.Session Calc.CorrSession Calc.SemSession Calc.SemProofs
         Calc.ExprSem Calc.ExprVM Calc.ExprCorrect Calc.ExprTop Calc.ExprAssign Calc.ExprLen Calc.ExprSession
-        Calc.LExprSem Calc.StmtSem Calc.StmtRel Calc.StmtVM Calc.StmtCorrect Calc.StmtTop Calc.StmtCheck Calc.StmtFuel Calc.StmtDef Calc.StmtMixed.
+        Calc.LExprSem Calc.StmtSem Calc.StmtRel Calc.StmtVM Calc.StmtCorrect Calc.StmtTop Calc.StmtCheck Calc.StmtFuel Calc.StmtDef Calc.StmtMixed Calc.StmtStart Calc.CorrFragment Calc.FragmentSound.
 Open Scope Z_scope.
 
 (* ---- the full statement (open) ---- *)
@@ -737,34 +737,9 @@ Print Assumptions C01_sessions_sem_vs_vm_partial.
    builtin.Load.  The tables name the four leaf built-ins with the values the two sides bind them to; the
    other built-ins (exit and the generators) are listed as function names without a value, so no statement
    of the fragment may mention them and a call of them has no meaning in ssem. *)
-Definition other_builtins : list string := ["exit"; "fromto"; "indices"; "elems"]%string.
-Definition is_leaf (nm : string) : bool := match bop_of_name nm with Some _ => true | None => String.eqb nm "read" end.
-Definition tab_of (G : list (string * value)) : ftab :=
-  {| ft_val := fun nm => if is_leaf nm then gval G nm else VNil;
-     ft_body := fun nm => if existsb (String.eqb nm) other_builtins then Some (NInt 0) else None;
-     ft_arity := fun _ => 0 |}.
 Definition sem_tab : ftab := tab_of (s_globals sem_init).
 Definition vm_tab : ftab := tab_of (v_globals (mc_vm mc_after_first)).
 Definition demo_names : list string := other_builtins ++ ["sq"; "big"; "mad"; "k"]%string.
-
-Lemma other_cases nm : existsb (String.eqb nm) other_builtins = true ->
-  nm = "exit"%string \/ nm = "fromto"%string \/ nm = "indices"%string \/ nm = "elems"%string.
-Proof.
-  unfold other_builtins. cbn [existsb].
-  destruct (String.eqb_spec nm "exit"); [auto|]. destruct (String.eqb_spec nm "fromto"); [auto|].
-  destruct (String.eqb_spec nm "indices"); [auto|]. destruct (String.eqb_spec nm "elems"); [auto|]. discriminate.
-Qed.
-
-Lemma tab_names G nm : is_bname (tab_of G) nm = true ->
-  nm = "write"%string \/ nm = "toa"%string \/ nm = "aton"%string \/ nm = "read"%string \/
-  nm = "exit"%string \/ nm = "fromto"%string \/ nm = "indices"%string \/ nm = "elems"%string.
-Proof.
-  unfold is_bname. destruct (bop_of_name nm) as [b|] eqn:Eb.
-  - intros _. destruct (bop_name_cases nm b Eb) as [[E _]|[[E _]|[E _]]]; subst nm; auto.
-  - destruct (String.eqb_spec nm "read") as [->|_]; [auto 10|]. cbn [orb tab_of ft_body].
-    destruct (existsb (String.eqb nm) other_builtins) eqn:E; [|discriminate]. intros _.
-    destruct (other_cases nm E) as [->|[->|[->| ->]]]; auto 10.
-Qed.
 
 Example C01_demo_tables_hold : tabs_ok demo_names sem_tab vm_tab.
 Proof.
@@ -862,6 +837,30 @@ Example C01_demo_sem_vs_vm_is_not_vacuous :
    Some (Ok (VInt 100)); Some (Ok (VArr [VBool false; VInt (-11)])); Some (Ok (VInt 81)); Some (Ok (VInt 23));
    Some (Ok (VInt 101)); Some (Fail ErrZeroDiv); Some (Fail ErrIndex); Some (Fail ErrArity); Some (Fail ErrArity);
    Some (Fail ErrZeroDiv); Some (Ok (VInt 101))].
+Proof. split; vm_compute; reflexivity. Qed.
+
+(* ---- what the correspondence run counts as covered is covered ---- *)
+(* the run evaluates two checkers in Coq on every generated session: start_ok on the machine the session
+   reaches after its first tree (that first run also executes the definitions of the built-ins and is not
+   covered by the theorems), and prefix_ok on the remaining trees.  Both are sound for the premises of the
+   session theorem: *)
+Theorem C01_checked_machine_meets_the_premise : forall mc,
+  start_ok mc = true -> exists c m, tready (self_tab mc) mc c m.
+Proof. exact start_ok_sound. Qed.
+Print Assumptions C01_checked_machine_meets_the_premise.
+
+Theorem C01_counted_trees_are_covered : forall mc0 t1 r,
+  machine_new = Some mc0 ->
+  let mc1 := fst (run_tree false mc0 t1) in
+  let pre := firstn (covered_prefix (t1 :: r)) r in
+  mixed (self_tab mc1) mc1 (map item_of pre) /\ map item_tree (map item_of pre) = pre.
+Proof. exact covered_prefix_sound. Qed.
+Print Assumptions C01_counted_trees_are_covered.
+
+(* the check passes on the machine of the examples, and on a session of the generator's shape *)
+Example C01_start_check_passes :
+  start_ok mc_after_first = true /\
+  covered_prefix ([NAssign (NName "ga") (NInt 3); def_lim; def_sq; def_big; def_mad; def_k] ++ demo_ucalls) = 23%nat.
 Proof. split; vm_compute; reflexivity. Qed.
 
 (* ---- proved: the oracle follows the language rules ---- *)
